@@ -13,6 +13,9 @@ func init() {
 	register(&core.Rule{ID: "R1", Min: 10,
 		Doc: "Lookup methods of the AST containers are effect-free on their receiver: linkedNodes.{Cap,Len,At,ToSlice} and linkedPairs.{Cap,Len,At,Get,ToSlice,ToMap,Less} contain no store through the receiver (field, element, map entry, delete) and call only methods of this pure set on it. A read that lazily writes shared structure (for example building the key index on first lookup) races on loaded, concurrently readable nodes.",
 		Run: runR1})
+	register(&core.Rule{ID: "R2", Min: 5,
+		Doc: "Tables frozen into compiled codecs are read-only at run time: the lookup methods that generated code and the decoders call on shared per-type structures - caching.FieldMap.{At,Get,GetCaseInsensitive}, caching._ProgramMap.get, caching.ProgramCache.Get - contain no store through the receiver (field, element, map entry, delete) and call only methods of that set on it. These structures are shared by every goroutine that decodes the type; a lookup that memoises into them is an unsynchronised write.",
+		Run: runR2})
 	register(&core.Rule{ID: "S5", Min: 2,
 		Doc: "Two lookup paths, one duplicate-key policy: in ast.linkedPairs the linear path (ascending scan, early return) is first-wins; the indexed path must be first-wins too, i.e. BuildIndex must not overwrite an existing hash entry when scanning in ascending order.",
 		Run: runS5})
@@ -121,6 +124,61 @@ func runR1(c *core.Ctx) {
 				c.Bad(cn, bpos, "lookup method %s.%s calls %s on its receiver, which is not in the effect-free set", recv, name, bad)
 			} else {
 				c.OK(cn, fd.Pos(), "no store through the receiver, only pure callees")
+			}
+		}
+	}
+}
+
+var frozenReaders = []struct {
+	rel, recv string
+	set       map[string]bool
+}{
+	{"internal/caching", "FieldMap", map[string]bool{"At": true, "Get": true, "GetCaseInsensitive": true}},
+	{"internal/caching", "_ProgramMap", map[string]bool{"get": true}},
+	{"internal/caching", "ProgramCache", map[string]bool{"Get": true}},
+}
+
+func runR2(c *core.Ctx) {
+	p := c.Prog
+	for _, fr := range frozenReaders {
+		pk := p.Pkg(fr.rel)
+		for _, name := range sortedKeys(fr.set) {
+			fd := core.FuncDecl(pk, fr.recv, name)
+			cn := fr.rel + ".(" + fr.recv + ")." + name + "/read-only"
+			if fd == nil || fd.Body == nil {
+				c.Undecided(cn, token.NoPos, "not found")
+				continue
+			}
+			c.Analysed(core.FuncName(pk, fd))
+			self := recvObj(p, fd)
+			if pos, what := storesThrough(p, fd.Body, self); pos.IsValid() {
+				c.Bad(cn, pos, "%s.%s writes its receiver (%s): the structure is shared by all goroutines using the compiled codec, so concurrent decodes race (e.g. fatal `concurrent map read and map write`)", fr.recv, name, what)
+				continue
+			}
+			bad := ""
+			var bpos token.Pos
+			ast.Inspect(fd.Body, func(n ast.Node) bool {
+				call, ok := n.(*ast.CallExpr)
+				if !ok {
+					return true
+				}
+				se, ok := call.Fun.(*ast.SelectorExpr)
+				if !ok {
+					return true
+				}
+				id, ok := ast.Unparen(se.X).(*ast.Ident)
+				if !ok || p.ObjectOf(id) != self {
+					return true
+				}
+				if f, ok := p.ObjectOf(se.Sel).(*types.Func); ok && !fr.set[f.Name()] {
+					bad, bpos = f.Name(), call.Pos()
+				}
+				return true
+			})
+			if bad != "" {
+				c.Bad(cn, bpos, "%s.%s calls %s on its receiver, which is not in the read-only set", fr.recv, name, bad)
+			} else {
+				c.OK(cn, fd.Pos(), "no store through the receiver, only read-only callees")
 			}
 		}
 	}
